@@ -522,7 +522,18 @@ pub fn wrap(rng: &mut Rng, w: &Wrapper, raw: &[u8], plain: &[u8]) -> Vec<u8> {
             out.extend_from_slice(&(rng.below(65536) as u16).to_le_bytes()); // time
             out.extend_from_slice(&(rng.below(65536) as u16).to_le_bytes()); // date
             out.extend_from_slice(&(if descriptor { 0 } else { crc32fast::hash(plain) }).to_le_bytes());
-            let (cs, us) = if zip64 { (0xFFFF_FFFFu32, 0xFFFF_FFFFu32) } else if descriptor { (0, 0) } else { (raw.len() as u32, plain.len() as u32) };
+            // variant 2: a compressed-size field that disagrees with the real stream length (writers
+            // that count padding, or a damaged header): the file is still just a byte string
+            let (cs, us) = if zip64 {
+                (0xFFFF_FFFFu32, 0xFFFF_FFFFu32)
+            } else if descriptor {
+                (0, 0)
+            } else if variant == 2 {
+                let delta = rng.range(1, 40) as u32;
+                (if rng.chance(1, 2) { raw.len() as u32 + delta } else { (raw.len() as u32).saturating_sub(delta).max(1) }, plain.len() as u32)
+            } else {
+                (raw.len() as u32, plain.len() as u32)
+            };
             out.extend_from_slice(&cs.to_le_bytes());
             out.extend_from_slice(&us.to_le_bytes());
             out.extend_from_slice(&name_len.to_le_bytes());
